@@ -431,6 +431,7 @@ def oracle(case, impl):
         return probs          # accepting a documented-unsupported configuration is not a C03 violation; the model comparison reports it
     cap = max(case["buffer_size"] // n, 1)
     log = {}                   # action tag -> (g, e, transition)
+    by_add = {}                # (add number, env) -> transition
     hist = []                  # adds since the last reset: global add numbers
     g = 0
     it = iter(impl["obs"])
@@ -438,6 +439,7 @@ def oracle(case, impl):
         if op["op"] == "add":
             for e, t in enumerate(op["row"]):
                 log[t[2]] = (g, e, t)
+                by_add[(g, e)] = t
             hist.append(g)
             g += 1
             continue
@@ -483,7 +485,9 @@ def oracle(case, impl):
                 bad = [nm for nm, got, want in (("obs", o, t[0]), ("reward", rw, t[3]), ("next_obs", nx, t[1]), ("done", dn, want_done)) if got != want]
                 if not bad:
                     continue
-                if case["memopt"] and t[4] and bad == ["next_obs"]:
+                # F3, exactly: memory-optimised, the transition ended an episode, it is not the newest add, only next_obs is wrong
+                # and what is returned is the observation of the FOLLOWING add of the same column
+                if case["memopt"] and t[4] and bad == ["next_obs"] and (k + 1, e) in by_add and hist and k != hist[-1] and nx == by_add[(k + 1, e)][0]:
                     probs.append((KNOWN_F3, f"optimize_memory_usage=True: {where} returns add #{k} env {e} (done=1) with next_obs tag {nx} "
                                             f"instead of the stored terminal observation {t[1]}"))
                 else:
